@@ -8,6 +8,7 @@ import (
 	"os"
 	"os/exec"
 	"path/filepath"
+	"sort"
 	"strings"
 	"time"
 )
@@ -65,6 +66,62 @@ func runSolver(s solverSpec, file string, timeoutMs int, nObl int) (map[int]stri
 	return res, time.Since(start).Seconds(), strings.Join(diag, "\n")
 }
 
+var noIncremental = true
+
+// solverSlots bounds the number of obligations being solved at any time (each may start up to three processes)
+var solverSlots = make(chan struct{}, 16)
+
+// raceSolvers runs all back ends on one query file concurrently and returns the first definite answer.
+func raceSolvers(file string, timeoutMs int) (string, string) {
+	type r struct{ st, by string }
+	ctx, cancel := context.WithTimeout(context.Background(), time.Duration(timeoutMs)*time.Millisecond+15*time.Second)
+	defer cancel()
+	// stage 1: the first back end alone (it decides the large majority within milliseconds)
+	if len(solvers) > 1 {
+		argv := solvers[0].argv(file, timeoutMs)
+		out, _ := exec.CommandContext(ctx, argv[0], argv[1:]...).CombinedOutput()
+		for _, l := range strings.Split(string(out), "\n") {
+			l = strings.TrimSpace(l)
+			if l == "sat" || l == "unsat" {
+				return l, solvers[0].name
+			}
+			if l == "unknown" || l == "timeout" {
+				break
+			}
+		}
+	}
+	rest := solvers
+	if len(solvers) > 1 {
+		rest = solvers[1:]
+	}
+	ch := make(chan r, len(rest))
+	for _, s := range rest {
+		go func(s solverSpec) {
+			argv := s.argv(file, timeoutMs)
+			cmd := exec.CommandContext(ctx, argv[0], argv[1:]...)
+			out, _ := cmd.CombinedOutput()
+			st := "unknown"
+			for _, l := range strings.Split(string(out), "\n") {
+				l = strings.TrimSpace(l)
+				if l == "sat" || l == "unsat" || l == "unknown" || l == "timeout" {
+					st = l
+					break
+				}
+			}
+			ch <- r{st, s.name}
+		}(s)
+	}
+	last := r{"unknown", solvers[0].name}
+	for range rest {
+		a := <-ch
+		if a.st == "unsat" || a.st == "sat" {
+			return a.st, a.by
+		}
+		last = a
+	}
+	return last.st, last.by
+}
+
 // discharge decides all obligations of a VC. Results are written into the obligations.
 func (eng *Engine) discharge(vc *VC, workDir string, timeoutMs int, thorough bool) (string, float64, error) {
 	os.MkdirAll(workDir, 0o755)
@@ -110,7 +167,16 @@ func (eng *Engine) discharge(vc *VC, workDir string, timeoutMs int, thorough boo
 			o.Solver = solvers[0].name
 			switch res[i] {
 			case "unsat":
-				o.Status = "vacuous"
+				// confirm in a fresh process: incremental mode is not trusted for this verdict
+				qf := fmt.Sprintf("%s.cover%d.smt2", base, i)
+				os.WriteFile(qf, []byte(vc.smtSingle(i)), 0o644)
+				st, _ := raceSolvers(qf, 3000)
+				os.Remove(qf)
+				if st == "unsat" {
+					o.Status = "vacuous"
+				} else {
+					o.Status = "not-refuted"
+				}
 			case "sat":
 				o.Status = "sat"
 			default:
@@ -119,15 +185,18 @@ func (eng *Engine) discharge(vc *VC, workDir string, timeoutMs int, thorough boo
 		}
 		os.Remove(cf)
 	}
-	for si, s := range solvers {
-		if len(pending) == 0 {
-			break
-		}
-		qf := fmt.Sprintf("%s.%s.smt2", base, s.name)
+	// pass 1: first solver, incremental (one process, push/pop per obligation): cheap for the easy majority
+	if len(pending) > 0 && !noIncremental {
+		s0 := solvers[0]
+		qf := fmt.Sprintf("%s.%s.smt2", base, s0.name)
 		if err := os.WriteFile(qf, []byte(vc.smtText(pending)), 0o644); err != nil {
 			return file, total, err
 		}
-		res, secs, diag := runSolver(s, qf, timeoutMs, len(pending))
+		t1 := timeoutMs
+		if t1 > 2000 {
+			t1 = 2000
+		}
+		res, secs, diag := runSolver(s0, qf, t1, len(pending))
 		total += secs
 		for i := range pending {
 			o := vc.obls[i]
@@ -135,27 +204,52 @@ func (eng *Engine) discharge(vc *VC, workDir string, timeoutMs int, thorough boo
 			if st == "" {
 				st = "unknown"
 			}
-			decided := false
-			if o.Cover {
-				// cover: sat means reachable (good); unsat means vacuous
-				if st == "sat" || st == "unsat" {
-					decided = true
-				}
-			} else if st == "unsat" || st == "sat" {
-				decided = true
-			}
-			if st == "error" && diag != "" && si == 0 {
+			if st == "error" && diag != "" {
 				o.Model = diag
 			}
-			if decided {
-				o.Status, o.Solver = st, s.name
+			o.Status, o.Solver = st, s0.name
+			if st == "unsat" || st == "sat" {
 				delete(pending, i)
-			} else if o.Status == "" || o.Status == "unknown" {
-				o.Status, o.Solver = st, s.name
 			}
 		}
-		if qf != file {
-			os.Remove(qf)
+		os.Remove(qf)
+	}
+	// pass 2: every remaining obligation in fresh solver processes (incremental mode weakens the solvers'
+	// strategies), all back ends racing; the first definite answer wins
+	if len(pending) > 0 {
+		var idxs []int
+		for i := range pending {
+			idxs = append(idxs, i)
+		}
+		sort.Ints(idxs)
+		type ans struct {
+			i      int
+			st, by string
+			secs   float64
+		}
+		ch := make(chan ans, len(idxs))
+		for _, i := range idxs {
+			go func(i int) {
+				solverSlots <- struct{}{}
+				defer func() { <-solverSlots }()
+				start := time.Now()
+				qf := fmt.Sprintf("%s.obl%d.smt2", base, i)
+				os.WriteFile(qf, []byte(vc.smtSingle(i)), 0o644)
+				defer os.Remove(qf)
+				st, by := raceSolvers(qf, timeoutMs)
+				ch <- ans{i, st, by, time.Since(start).Seconds()}
+			}(i)
+		}
+		for range idxs {
+			a := <-ch
+			total += a.secs
+			o := vc.obls[a.i]
+			if a.st == "unsat" || a.st == "sat" {
+				o.Status, o.Solver = a.st, a.by
+				delete(pending, a.i)
+			} else if a.st != "" {
+				o.Status, o.Solver = a.st, a.by
+			}
 		}
 	}
 	for i := range pending {
